@@ -34,6 +34,7 @@ type Opts struct {
 	Contexts      int  // maximal number of context parameters
 	ConvArg       bool // custom functions may take the converter as first argument
 	UseUnderlying bool // may use useUnderlyingTypeMethods
+	PtrHeavy      bool // favour pointer shapes incl. double pointers on either side
 	AlwaysErr     bool // every declared method returns error
 	ErrMismatch   bool // inject one fallible function although no method returns error
 	FallibleRate  int  // percent of custom functions that can fail (default 50)
@@ -68,6 +69,16 @@ type Builder struct {
 
 	errMismatchDone bool
 	aImportsMark    bool
+
+	comparableOnly bool // only comparable types (F-ZERO-NONCOMPARABLE)
+	noNillable     bool // no pointer / slice / map members (F-UPDATE-NESTED-STALE)
+	inUpdate       bool
+	OpenNonComparable bool
+	OpenNestedStale   bool
+	OpenNilPtrSub     bool // F-UPDATE-NILLABLE-CALL
+	noPtrToNamed      bool
+
+	GlobalOnly []string // setting lines given on the command line instead of the converter
 
 	enumNeedErr bool
 	enumMethods []*model.Method
@@ -252,6 +263,9 @@ func (b *Builder) Pair(depth int) (*spec.T, *spec.T) {
 			choices = append(choices, choice{"defect-shape", 25})
 		}
 	}
+	if b.O.PtrHeavy && depth > 0 {
+		choices = append(choices, choice{"ptr", 15}, choice{"tptr", 15}, choice{"sptr", 15}, choice{"pptr", 10}, choice{"tpptr", 8}, choice{"spptr", 8})
+	}
 	if b.O.Enums {
 		choices = append(choices, choice{"enum", 8})
 	}
@@ -269,6 +283,20 @@ func (b *Builder) Pair(depth int) (*spec.T, *spec.T) {
 		if b.O.UseUnderlying {
 			choices = append(choices, choice{"under", 4})
 		}
+	}
+	if b.comparableOnly || b.noNillable {
+		var keep []choice
+		for _, c := range choices {
+			switch c.name {
+			case "basic", "struct", "ustruct":
+				keep = append(keep, c)
+			case "ptr", "tptr":
+				if !b.noNillable {
+					keep = append(keep, c)
+				}
+			}
+		}
+		choices = keep
 	}
 	total := 0
 	for _, c := range choices {
@@ -290,6 +318,10 @@ func (b *Builder) Pair(depth int) (*spec.T, *spec.T) {
 	case "ptr":
 		b.topLevel = true // pointees are built, not assigned: arrays are fine there
 		s, t := b.Pair(depth - 1)
+		if b.noPtrToNamed && s.K == spec.KNamed {
+			b.label("excluded:F-UPDATE-NILLABLE-CALL")
+			return spec.Slice(s), spec.Slice(t)
+		}
 		return spec.Ptr(s), spec.Ptr(t)
 	case "tptr":
 		b.topLevel = true
@@ -309,6 +341,22 @@ func (b *Builder) Pair(depth int) (*spec.T, *spec.T) {
 		}
 		b.Conv.Settings.ZeroPtr = true
 		return spec.Ptr(s), t
+	case "pptr":
+		b.topLevel = true
+		s, t := b.Pair(depth - 1)
+		return spec.Ptr(spec.Ptr(s)), spec.Ptr(spec.Ptr(t))
+	case "tpptr":
+		b.topLevel = true
+		s, t := b.Pair(depth - 1)
+		return s, spec.Ptr(spec.Ptr(t))
+	case "spptr":
+		b.topLevel = true
+		s, t := b.Pair(depth - 1)
+		b.Conv.Settings.ZeroPtr = true
+		if b.coin("spptr-to-ptr") {
+			return spec.Ptr(spec.Ptr(s)), spec.Ptr(t)
+		}
+		return spec.Ptr(spec.Ptr(s)), t
 	case "slice":
 		s, t := b.pairAssign(depth - 1)
 		return spec.Slice(s), spec.Slice(t)
@@ -323,11 +371,24 @@ func (b *Builder) Pair(depth int) (*spec.T, *spec.T) {
 	case "struct":
 		return b.namedStruct(depth)
 	case "ustruct":
+		saved := b.noNillable
+		if b.inUpdate && b.OpenNestedStale {
+			// unnamed structs are assigned member-wise in update mode: keep them free of
+			// nillable members while F-UPDATE-NESTED-STALE is open
+			b.noNillable = true
+			b.label("excluded:F-UPDATE-NESTED-STALE")
+		}
 		fs, ft := b.fields(depth, nil, nil)
+		b.noNillable = saved
 		return spec.Struct(fs...), spec.Struct(ft...)
 	case "recur":
 		op := b.stack[b.draw(len(b.stack), "recur-idx")]
-		switch b.draw(3, "recur-via") {
+		via := b.draw(3, "recur-via")
+		if via == 0 && b.noPtrToNamed {
+			b.label("excluded:F-UPDATE-NILLABLE-CALL")
+			via = 1
+		}
+		switch via {
 		case 0:
 			return spec.Ptr(op.s), spec.Ptr(op.t)
 		case 1:
@@ -340,6 +401,9 @@ func (b *Builder) Pair(depth int) (*spec.T, *spec.T) {
 		// by-value reuse of a pair that is still open would be an invalid recursive type
 		for _, op := range b.stack {
 			if op.s.Key_() == np.s.Key_() {
+				if b.noPtrToNamed {
+					return spec.Slice(np.s), spec.Slice(np.t)
+				}
 				return spec.Ptr(np.s), spec.Ptr(np.t)
 			}
 		}
@@ -347,9 +411,17 @@ func (b *Builder) Pair(depth int) (*spec.T, *spec.T) {
 	case "enum":
 		return b.enumPair()
 	case "extend":
-		return b.extendPair(depth)
+		s, t := b.extendPair(depth)
+		if b.noPtrToNamed && nillable(s) {
+			b.label("excluded:F-UPDATE-NILLABLE-CALL")
+		}
+		return s, t
 	case "extend-reuse":
 		np := b.extPairs[b.draw(len(b.extPairs), "extend-reuse-idx")]
+		if b.noPtrToNamed && nillable(np.s) {
+			b.label("excluded:F-UPDATE-NILLABLE-CALL")
+			return b.leafBasic()
+		}
 		return np.s, np.t
 	case "under":
 		return b.underPair()
@@ -605,10 +677,22 @@ func (b *Builder) newFunc(s, t *spec.T, withSource bool) *model.Func {
 	return f
 }
 
+func nillable(t *spec.T) bool {
+	switch t.K {
+	case spec.KPtr, spec.KSlice, spec.KMap, spec.KChan, spec.KFunc, spec.KIface:
+		return true
+	}
+	return false
+}
+
 // extendPair creates a pair that is converted by an extend function.
 func (b *Builder) extendPair(depth int) (*spec.T, *spec.T) {
 	var s, t *spec.T
-	if b.coin("extend-independent") {
+	if b.noPtrToNamed {
+		// under update:ignoreZeroValueField:nillable keep function-converted sources non-nillable
+		s, _ = b.leafBasic()
+		_, t = b.Pair(min(depth, 1))
+	} else if b.coin("extend-independent") {
 		// unrelated types: only the function can convert them
 		s, _ = b.Pair(min(depth, 1))
 		_, t = b.Pair(min(depth, 1))
@@ -978,25 +1062,44 @@ func (b *Builder) StructMethod(name string, depth int) *model.Method {
 func (b *Builder) Finish() {
 	for _, m := range b.Conv.Methods {
 		s := b.Conv.Settings
-		s.MatchIgnoreCase = m.Settings.MatchIgnoreCase
-		s.IgnoreMissing = m.Settings.IgnoreMissing
-		s.IgnoreUnexported = m.Settings.IgnoreUnexported
-		if m.Settings.EnumUnknown != "" {
-			s.EnumUnknown = m.Settings.EnumUnknown
+		ms := m.Settings
+		s.MatchIgnoreCase = ms.MatchIgnoreCase
+		s.IgnoreMissing = ms.IgnoreMissing
+		s.IgnoreUnexported = ms.IgnoreUnexported
+		if ms.EnumUnknown != "" {
+			s.EnumUnknown = ms.EnumUnknown
 		}
+		s.ZeroBasic = s.ZeroBasic || ms.ZeroBasic
+		s.ZeroStruct = s.ZeroStruct || ms.ZeroStruct
+		s.ZeroNillable = s.ZeroNillable || ms.ZeroNillable
+		s.DefaultUpdate = s.DefaultUpdate || ms.DefaultUpdate
+		s.ZeroPtr = s.ZeroPtr || ms.ZeroPtr
 		m.Settings = s
 	}
 	for i, m := range b.Conv.Methods {
 		m.Roles = nil
 		for _, p := range b.SC.Methods[i].Params {
-			if p.Name == "source" {
+			switch p.Name {
+			case "source":
 				m.Roles = append(m.Roles, "source")
-			} else {
+			case "target":
+				m.Roles = append(m.Roles, "target")
+			default:
 				m.Roles = append(m.Roles, "context")
 			}
 		}
 	}
-	b.SC.Doc = append(b.SC.Doc, b.Conv.Settings.Lines()...)
+	for _, l := range b.Conv.Settings.Lines() {
+		skip := false
+		for _, g := range b.GlobalOnly {
+			if g == l {
+				skip = true
+			}
+		}
+		if !skip {
+			b.SC.Doc = append(b.SC.Doc, l)
+		}
+	}
 	if b.ctxRegex {
 		b.SC.Doc = append(b.SC.Doc, "arg:context:regex ^ctx")
 	}
@@ -1012,6 +1115,13 @@ func (b *Builder) Finish() {
 		if m.Settings.IgnoreUnexported {
 			sm.Doc = append(sm.Doc, "ignoreUnexported")
 		}
+		cs := b.Conv.Settings
+		only := model.Settings{
+			ZeroBasic: m.Settings.ZeroBasic && !cs.ZeroBasic, ZeroStruct: m.Settings.ZeroStruct && !cs.ZeroStruct,
+			ZeroNillable: m.Settings.ZeroNillable && !cs.ZeroNillable, DefaultUpdate: m.Settings.DefaultUpdate && !cs.DefaultUpdate,
+			ZeroPtr: m.Settings.ZeroPtr && !cs.ZeroPtr,
+		}
+		sm.Doc = append(sm.Doc, only.Lines()...)
 	}
 }
 
@@ -1059,3 +1169,165 @@ func (b *Builder) fieldDefect() bool {
 
 // SamePkgOutput reports whether the output goes into the converter's package.
 func (o Opts) SamePkgOutput() bool { return o.SamePkg }
+
+// zeroCategories draws update:ignoreZeroValueField categories and places them at
+// converter or method level.
+func (b *Builder) zeroCategories(m *model.Method) {
+	bits := b.draw(8, "zero-categories")
+	zb, zs, zn := bits&1 != 0, bits&2 != 0, bits&4 != 0
+	if b.coin("zero-at-method-level") {
+		m.Settings.ZeroBasic, m.Settings.ZeroStruct, m.Settings.ZeroNillable = zb, zs, zn
+		if zb || zs || zn {
+			m.FieldLines++
+		}
+	} else {
+		b.Conv.Settings.ZeroBasic = b.Conv.Settings.ZeroBasic || zb
+		b.Conv.Settings.ZeroStruct = b.Conv.Settings.ZeroStruct || zs
+		b.Conv.Settings.ZeroNillable = b.Conv.Settings.ZeroNillable || zn
+	}
+}
+
+// structPairFor builds a named struct pair whose field settings belong to m.
+func (b *Builder) structPairFor(m *model.Method, depth int, recur bool) (*spec.T, *spec.T) {
+	id := b.id()
+	sn, tn := fmt.Sprintf("S%d", id), fmt.Sprintf("T%d", id)
+	if b.O.SamePkg {
+		sn, tn = fmt.Sprintf("SrcS%d", id), fmt.Sprintf("DstT%d", id)
+	}
+	s, t := spec.Named(b.A.Key, sn), spec.Named(b.B.Key, tn)
+	sd, td := &spec.TypeDecl{Name: sn}, &spec.TypeDecl{Name: tn}
+	b.A.Types = append(b.A.Types, sd)
+	b.B.Types = append(b.B.Types, td)
+	saved := b.stack
+	if recur {
+		b.stack = append(b.stack, openPair{s, t})
+	} else {
+		// the pair must not occur below itself: a nested occurrence would call the
+		// declared method again (with its default constructor)
+		b.stack = nil
+	}
+	fs, ft := b.fields(depth, m, sd)
+	b.stack = saved
+	sd.U, td.U = spec.Struct(fs...), spec.Struct(ft...)
+	return s, t
+}
+
+// UpdateMethod declares an update-signature method over a fresh struct pair.
+func (b *Builder) UpdateMethod(name string, depth int) *model.Method {
+	m := &model.Method{Name: name, Update: true, Fields: map[string]*model.FieldCfg{}}
+	b.zeroCategories(m)
+	b.inUpdate = true
+	if b.OpenNonComparable && (m.Settings.ZeroStruct || b.Conv.Settings.ZeroStruct) {
+		b.comparableOnly = true
+		b.label("excluded:F-ZERO-NONCOMPARABLE")
+	}
+	if b.OpenNilPtrSub && (m.Settings.ZeroNillable || b.Conv.Settings.ZeroNillable) {
+		b.noPtrToNamed = true
+	}
+	s, t := b.structPairFor(m, depth, true)
+	b.inUpdate, b.comparableOnly, b.noPtrToNamed = false, false, false
+	srcT := s
+	if b.coin("update-source-pointer") {
+		srcT = spec.Ptr(s)
+		b.label("update:pointer-source")
+	}
+	m.Source, m.Target = srcT, spec.Ptr(t)
+	sm := &spec.Method{Name: name, Doc: []string{"update target"}}
+	ps := []spec.Param{{Name: "source", T: srcT}, {Name: "target", T: spec.Ptr(t)}}
+	if b.coin("update-target-first") {
+		ps[0], ps[1] = ps[1], ps[0]
+		b.label("update:target-first")
+	}
+	sm.Params = ps
+	for _, c := range b.Ctx {
+		pos := b.draw(len(sm.Params)+1, "ctx-pos")
+		np := append([]spec.Param{}, sm.Params[:pos]...)
+		np = append(np, spec.Param{Name: c.Name, T: c.T})
+		sm.Params = append(np, sm.Params[pos:]...)
+		m.Contexts = append(m.Contexts, c.T)
+		if !b.ctxRegex {
+			sm.Doc = append(sm.Doc, "context "+c.Name)
+		}
+	}
+	if b.AllErr || b.coin("update-returns-error") {
+		m.Err = true
+		sm.Results = []*spec.T{spec.Named("", "error")}
+	}
+	b.Conv.Methods = append(b.Conv.Methods, m)
+	b.SC.Methods = append(b.SC.Methods, sm)
+	b.finishMethod(m, sm)
+	return m
+}
+
+// DefaultMethod declares a method with a default constructor over a fresh struct pair.
+func (b *Builder) DefaultMethod(name string, depth int) *model.Method {
+	m := &model.Method{Name: name, Fields: map[string]*model.FieldCfg{}}
+	b.zeroCategories(m)
+	if b.coin("default-update") {
+		if b.coin("default-update-at-method") {
+			m.Settings.DefaultUpdate = true
+		} else {
+			b.Conv.Settings.DefaultUpdate = true
+		}
+	}
+	b.inUpdate = true
+	if b.OpenNonComparable && (m.Settings.ZeroStruct || b.Conv.Settings.ZeroStruct) {
+		b.comparableOnly = true
+		b.label("excluded:F-ZERO-NONCOMPARABLE")
+	}
+	if b.OpenNilPtrSub && (m.Settings.ZeroNillable || b.Conv.Settings.ZeroNillable) {
+		b.noPtrToNamed = true
+	}
+	s, t := b.structPairFor(m, depth, false)
+	b.inUpdate, b.comparableOnly, b.noPtrToNamed = false, false, false
+	srcT, dstT := s, t
+	switch b.draw(4, "default-shape") {
+	case 0:
+		b.label("default:S->T")
+	case 1:
+		dstT = spec.Ptr(t)
+		b.label("default:S->*T")
+	case 2:
+		srcT, dstT = spec.Ptr(s), spec.Ptr(t)
+		b.label("default:*S->*T")
+	default:
+		srcT = spec.Ptr(s)
+		if b.coin("zeroptr-at-method") {
+			m.Settings.ZeroPtr = true
+		} else {
+			b.Conv.Settings.ZeroPtr = true
+		}
+		b.label("default:*S->T")
+	}
+	m.Source, m.Target = srcT, dstT
+	// constructor: with or without source, value or pointer result
+	var fsrc *spec.T
+	if b.coin("default-takes-source") {
+		fsrc = srcT
+	}
+	ft := dstT
+	if dstT.K == spec.KPtr && b.coin("default-value-result") {
+		ft = dstT.Elem
+	}
+	f := b.newFunc(fsrc, ft, fsrc != nil)
+	m.Default = f
+	sm := &spec.Method{Name: name, Doc: []string{"default " + f.Name}, Params: []spec.Param{{Name: "source", T: srcT}}, Results: []*spec.T{dstT}}
+	for _, c := range b.Ctx {
+		pos := b.draw(len(sm.Params)+1, "ctx-pos")
+		np := append([]spec.Param{}, sm.Params[:pos]...)
+		np = append(np, spec.Param{Name: c.Name, T: c.T})
+		sm.Params = append(np, sm.Params[pos:]...)
+		m.Contexts = append(m.Contexts, c.T)
+		if !b.ctxRegex {
+			sm.Doc = append(sm.Doc, "context "+c.Name)
+		}
+	}
+	if b.AllErr {
+		m.Err = true
+		sm.Results = append(sm.Results, spec.Named("", "error"))
+	}
+	b.Conv.Methods = append(b.Conv.Methods, m)
+	b.SC.Methods = append(b.SC.Methods, sm)
+	b.finishMethod(m, sm)
+	return m
+}
